@@ -400,8 +400,8 @@ theorem egf_long_short (a b : Seq) :
       (egfShort a b).length = min a.length b.length := by
   unfold egfLong egfShort
   by_cases c : a.length < b.length
-  · simp only [if_pos c]; omega
-  · simp only [if_neg c]; omega
+  · simp only [if_pos c]; exact ⟨by omega, by omega, (Nat.min_eq_left (by omega)).symm⟩
+  · simp only [if_neg c]; exact ⟨by omega, trivial, (Nat.min_eq_right (by omega)).symm⟩
 
 theorem bandEGF_exact (a b : Seq) (e : Int) (s l : Nat) (hn : a.length + b.length + 1 ≤ 30000)
     (hopt : EgfOpt samenuc (egfLong a b) (egfShort a b) s l)
